@@ -208,6 +208,7 @@ func oblOK(o *Obligation) bool {
 func cmdLock(args []string) {
 	fs := flag.NewFlagSet("lock", flag.ExitOnError)
 	timeout := fs.Int("timeout", 25, "solver timeout (s)")
+	only := fs.String("funcs", "", "re-lock only these functions (comma-separated keys or prefix*); other entries are kept")
 	fs.Parse(args)
 	p, err := loadProg(repoDir())
 	if err != nil {
@@ -215,7 +216,13 @@ func cmdLock(args []string) {
 		os.Exit(2)
 	}
 	loadPreludeSigs(preludeSig)
-	gens := generate(p, func(*FuncInfo) bool { return true })
+	sel := map[string]bool{}
+	if *only != "" {
+		for _, fi := range selectFuncs(p, *only) {
+			sel[fi.Key] = true
+		}
+	}
+	gens := generate(p, func(fi *FuncInfo) bool { return *only == "" || sel[fi.Key] })
 	s, _ := newSolver(*timeout, false)
 	defer s.close()
 	s.prelude, s.lean = fullPrelude(p), leanPrelude(p)
@@ -246,6 +253,27 @@ func cmdLock(args []string) {
 				lock = append(lock, o.Name+"\t"+ps+"\t"+strings.TrimSuffix(o.Solver, " (cached)"))
 			} else {
 				und = append(und, o.Name+"\t"+o.Status+" @"+o.Pos)
+			}
+		}
+	}
+	if *only != "" {
+		// keep the entries of all other functions
+		keep := func(l string) bool {
+			name := strings.Split(l, "\t")[0]
+			fn := name
+			if i := strings.Index(name, "#"); i >= 0 {
+				fn = name[:i]
+			}
+			return !sel[fn]
+		}
+		for _, l := range readLines(filepath.Join(verifDir, "obligations.lock")) {
+			if keep(l) {
+				lock = append(lock, l)
+			}
+		}
+		for _, l := range readLines(filepath.Join(verifDir, "undecided.txt")) {
+			if keep(l) {
+				und = append(und, l)
 			}
 		}
 	}
@@ -436,6 +464,17 @@ func cmdCheck(args []string) {
 			skip := false
 			for _, v := range violations {
 				if v["obligation"] == fn+"#unbound" {
+					skip = true
+				}
+			}
+			// a generated safety obligation names a code site: when the site is gone there is nothing left to prove
+			rest := name[strings.Index(name, "#")+1:]
+			kind := rest
+			if i := strings.IndexAny(rest, "[#"); i >= 0 {
+				kind = rest[:i]
+			}
+			if safetyKinds[kind] || kind == "ovf" || kind == "conv" {
+				if _, stillThere := p.Funcs[fn]; stillThere {
 					skip = true
 				}
 			}
